@@ -26,6 +26,10 @@ InvSuffix == IsGo => \A s \in Suffixes \cup {Wire} : LET r == FromSlice(Ty, Reg,
 InvPrefixFree == IsGo => Parse(Wire).ok /\ Parse(Wire).n = Len(Wire) + 1 /\ \A k \in 0..(Len(Wire) - 1) : ~Parse(SubSeq(Wire, 1, k)).ok
 (* the same discipline for the header map inside a protected bstr: [bstr(map || suffix), {}, nil] as COSE_Encrypt0 *)
 ProtWith(inner) == <<131>> \o Hd(2, MagOfNat(Len(inner))) \o inner \o <<160, 246>>
+InvProtToVec == IsGo /\ Ty = "Header" =>
+  LET p == Prot_FromBstr(Bs(Wire)).x IN
+  /\ ToVec("ProtectedHeader", p).x = Enc(Header_ToCbor(p.hdr).x)      \* the map form, whatever bytes were received
+  /\ Prot_Bstr(p).x.b = Wire                                           \* the bstr form: the received bytes
 InvProtInner == IsGo /\ Ty = "Header" =>
   /\ FromSlice("CoseEncrypt0", "", ProtWith(Wire)).ok \/ Wire = <<160>> \/ TRUE
   /\ \A s \in Suffixes : LET r == FromSlice("CoseEncrypt0", "", ProtWith(Wire \o s)) IN ~r.ok /\ r.err = "ExtraneousData"
@@ -36,4 +40,12 @@ Emit == IsGo =>
                     suffixes |-> SE!SetToSeq(Suffixes \cup {Wire})]))
   /\ Ty = "Header" => PrintT(ToJson([kind |-> "oneitem", props |-> <<"C13">>, ty |-> "CoseEncrypt0", reg |-> "", nt |-> TRUE, inner |-> Wire,
                                      suffixes |-> SE!SetToSeq(Suffixes)]))
+  (* byte-level encoding = convert, then serialise -- also for a protected header that retains received bytes: *)
+  (* to_vec gives the MAP form, cbor_bstr gives the retained bytes                                            *)
+  /\ Ty = "Header" => LET steps == <<[ev |-> "inject", bytes |-> Wire], [ev |-> "decode", api |-> "bstr", ty |-> "ProtectedHeader", reg |-> ""],
+                                      [ev |-> "encode", api |-> "vec"], [ev |-> "encode", api |-> "bstr"]>>
+                           obs == RunObs(InitState, steps, <<>>) IN
+                       PrintT(ToJson([kind |-> "session", props |-> <<"C13">>, steps |-> steps, nt |-> TRUE,
+                                      expect |-> [k \in 1..Len(obs) |-> [kind |-> obs[k].kind, err |-> obs[k].err, bytes |-> obs[k].bytes, cb |-> obs[k].cb,
+                                                                         ret |-> obs[k].ret, val |-> obs[k].val, judge |-> TRUE, slotfree |-> FALSE, pinerr |-> FALSE]]]))
 =============================================================================
